@@ -60,7 +60,7 @@ func (e *Exec) verifyFunction(fn *ssa.Function, sp *FuncSpec) {
 	for _, ax := range sp.Axioms {
 		g, err := e.evalSpecBool(ax.Expr, env)
 		if err != nil {
-			e.errorf("%s: axiom %s: %v", name, ax.Label, err)
+			e.notes = appendUnique(e.notes, fmt.Sprintf("%s: axiom %s cannot be evaluated on the current code (%v): not assumed", name, ax.Label, err))
 			continue
 		}
 		st.pc = append(st.pc, g)
